@@ -21,25 +21,13 @@ fn or(conv: &str, r: Value) -> Value {
 fn oqr(conv: &str, q: Value, r: Value) -> Value {
     json!({"conv": conv, "hq": 1, "hr": 1, "q": q, "r": r})
 }
-/// primitives are widened with `as` (no library conversion)
 macro_rules! prim_val {
-    ($p:expr) => {{
-        let v = $p as i128;
-        let neg = v < 0;
-        let m = (v.unsigned_abs()).to_le_bytes();
-        let mut mv: Vec<u8> = m.to_vec();
-        while mv.last() == Some(&0) {
-            mv.pop();
-        }
-        json!({"s": if neg && !mv.is_empty() { 1 } else { 0 }, "m": mv})
-    }};
+    ($p:expr) => {
+        PrimEnc::penc($p)
+    };
 }
 fn u128_val(p: u128) -> Value {
-    let mut mv = p.to_le_bytes().to_vec();
-    while mv.last() == Some(&0) {
-        mv.pop();
-    }
-    json!({"s": 0, "m": mv})
+    PrimEnc::penc(p)
 }
 
 /// all big-by-big forms for a pair of types; $eq/$er encode the quotient / remainder types
